@@ -157,6 +157,13 @@ def scenarios(tier):
         out.append(Scenario('ucb1.%s.m2' % npol, neighbourhood,
                             dict(lp='ucb1', npol=npol, N=2, A=2, d=1, m=2, partial=1), weight=3000, max_paths=100000,
                             shards=4, bounds=dict(lp='ucb1', np=npol, rows=3, d=1, m=2)))
+    # a first fit with exactly k rows (every stored row is a neighbour) followed by partial_fit batches
+    for lp, npol, N, partial in [('greedy0', 'knearest:2:cityblock', 2, 2), ('ucb1', 'knearest:1:cityblock', 1, 2)] + \
+            ([] if q else [('ucb1', 'knearest:2:sqeuclidean', 2, 2), ('linucb', 'knearest:2:cityblock', 2, 2),
+                           ('greedy0', 'knearest:3:cityblock', 3, 2)]):
+        out.append(Scenario('%s.%s.first_fit_k_rows' % (lp, npol), neighbourhood,
+                            dict(lp=lp, npol=npol, N=N, A=2, d=1, m=1, partial=partial), weight=1500, max_paths=100000,
+                            shards=4, bounds=dict(lp=lp, np=npol, rows='%d (= k) + %d by partial_fit' % (N, partial), d=1, m=1)))
     if not q:
         for npol in ('radius:cityblock', 'knearest:2:cityblock'):
             out.append(Scenario('ucb1.%s.m2.A3' % npol, neighbourhood,
